@@ -94,6 +94,9 @@ pub struct Case {
     pub sink: String,
     pub sticky: bool,
     pub k: usize,
+    /// an earlier failing write on the same thread (only present when the violation needs that history)
+    #[serde(default, skip_serializing_if = "Option::is_none")]
+    pub prelude: Option<Box<Case>>,
 }
 
 enum Outcome {
@@ -185,17 +188,56 @@ pub fn exec_case(comp: &Comp, case: &Case, clean: &BitModel, clean_bytes: &[u8],
         let at = before.bits.iter().zip(clean.bits.iter()).position(|(a, b)| a != b);
         return mk("not_a_prefix", String::new(), String::new(), format!("bits accepted before the failure ({}) are not a prefix of the clean bitstream (first difference at bit {:?})", before.len(), at));
     }
-    // after the fault: the same component on the same thread to a good sink gives the clean bytes
-    let again = pan::catch(|| {
-        let mut s = ByteSink::new();
-        comp.write(&mut s).map(|()| s.into_inner()).map_err(|e| format!("{e}"))
-    });
-    match again {
-        Err(c) => mk("panic_after_fault", c.site.clone(), c.message.clone(), "a clean write after the failed one panicked".into()),
-        Ok(Err(e)) => mk("error_after_fault", String::new(), e, "a clean write after the failed one returned an error".into()),
-        Ok(Ok(b)) if b != clean_bytes => mk("corrupt_after_fault", String::new(), String::new(), "a clean write after the failed one produced different bytes (thread-local scratch did not survive the failure)".into()),
-        Ok(Ok(_)) => None,
+    // The same write again on the same thread, failing at the same operation: whatever the first failure
+    // left behind, the bits this second sink accepts before ITS failure must again be a prefix of the
+    // correct bitstream, and it must again get an error back (the property holds for every failing write,
+    // not only for the first one on a thread).
+    let core2 = Core::failing(Some(case.k), case.sticky);
+    let (res2, core2) = if case.sink == "required" {
+        let mut s = ReqSink(core2);
+        let r = run_on(comp, &mut s);
+        (r, s.0)
+    } else if case.sink == "required_unit_error" {
+        let mut s = UnitErrSink(core2);
+        let r = run_on_unit(comp, &mut s, case.k);
+        (r, s.0)
+    } else {
+        let mut s = FullSink(core2);
+        let r = run_on(comp, &mut s);
+        (r, s.0)
+    };
+    *ops_out += core2.ops as u64;
+    let _ = clean_bytes;
+    match res2 {
+        Err(c) => mk("panic_after_fault", c.site.clone(), c.message.clone(), "the same failing write repeated on the same thread panicked".into()),
+        Ok(Outcome::Ok) if core2.errors > 0 => mk("error_swallowed", String::new(), String::new(), format!("repeated write: sink returned an error at operation {} but write returned Ok", case.k)),
+        Ok(Outcome::OtherErr(e)) => mk("wrong_error", String::new(), e.clone(), format!("repeated write returned a non-sink error: {e}")),
+        Ok(_) => {
+            let before2 = BitModel {
+                bits: core2.model.bits[..core2.bits_before_error.unwrap_or(core2.model.len())].to_vec(),
+            };
+            if before2.is_prefix_of(clean) {
+                None
+            } else {
+                let at = before2.bits.iter().zip(clean.bits.iter()).position(|(a, b)| a != b);
+                mk(
+                    "not_a_prefix_after_earlier_failure",
+                    String::new(),
+                    String::new(),
+                    format!(
+                        "after an earlier failed write on the same thread, the bits accepted before the failure ({}) are not a prefix of the clean bitstream (first difference at bit {at:?})",
+                        before2.len()
+                    ),
+                )
+            }
+        }
     }
+}
+
+/// Runs `f` on a freshly spawned thread: reference values (the clean bitstream, operation counts) must not
+/// depend on what earlier failing writes may have left behind on the calling thread.
+fn on_fresh_thread<R: Send>(f: impl FnOnce() -> R + Send) -> R {
+    std::thread::scope(|sc| sc.spawn(f).join().expect("HARNESS: reference thread panicked"))
 }
 
 fn count_ops(comp: &Comp, required: bool) -> usize {
@@ -220,20 +262,24 @@ pub fn run(ctx: &crate::RunCtx) -> (Summary, Vec<Violation>) {
     sum.exhaustive = Some(true);
     let mut viols = vec![];
     let mut n_case = 0u64;
+    // the previous case executed by this child, with everything needed to run it again
+    let mut prev: Option<(Case, std::sync::Arc<Comp>, std::sync::Arc<BitModel>, std::sync::Arc<Vec<u8>>)> = None;
     for idx in 0..ctx.count as usize {
         let item = corpus::build(ctx.seed, idx);
         if ctx.child == 0 {
             corpus::kinds(&item, &mut sum.probes);
         }
         for (name, comp) in components(&item) {
-            let (cb, nbits) = clean_bits(&comp);
-            let clean = BitModel::from_bytes(&cb, nbits);
+            let comp = std::sync::Arc::new(comp);
+            let (cb, nbits) = on_fresh_thread(|| clean_bits(&comp));
+            let clean = std::sync::Arc::new(BitModel::from_bytes(&cb, nbits));
+            let cb = std::sync::Arc::new(cb);
             if comp.count_bits() != nbits {
                 // not this property's business (C08); noted as a probe only
                 *sum.probes.entry("count_bits_differs_from_written".into()).or_default() += 1;
             }
             for sink in ["required", "overridden", "required_unit_error"] {
-                let n = count_ops(&comp, sink != "overridden");
+                let n = on_fresh_thread(|| count_ops(&comp, sink != "overridden"));
                 for sticky in [true, false] {
                     for k in 0..n {
                         n_case += 1;
@@ -247,6 +293,7 @@ pub fn run(ctx: &crate::RunCtx) -> (Summary, Vec<Violation>) {
                             sink: sink.into(),
                             sticky,
                             k,
+                            prelude: None,
                         };
                         sum.cases += 1;
                         if k > 0 {
@@ -254,7 +301,40 @@ pub fn run(ctx: &crate::RunCtx) -> (Summary, Vec<Violation>) {
                         }
                         *sum.fault_kinds.entry(format!("sink_error_{}_{}", sink, if sticky { "sticky" } else { "once" })).or_default() += 1;
                         let mut ops = 0;
-                        let verdict = exec_case(&comp, &case, &clean, &cb, &mut ops);
+                        let mut verdict = exec_case(&comp, &case, &clean, &cb, &mut ops);
+                        if verdict.is_some() {
+                            // Report what reproduces in a fresh thread (the replay file is executed in a fresh
+                            // process): the case alone, or - if it needs what an earlier failing write left
+                            // behind - the previous case of this thread followed by this one.
+                            let run_alone = |with_prev: bool| {
+                                std::thread::scope(|sc| {
+                                    sc.spawn(|| {
+                                        let mut o = 0;
+                                        if with_prev {
+                                            if let Some((pc, pcomp, pclean, pcb)) = &prev {
+                                                let _ = exec_case(pcomp, pc, pclean, pcb, &mut o);
+                                            }
+                                        }
+                                        exec_case(&comp, &case, &clean, &cb, &mut o)
+                                    })
+                                    .join()
+                                    .ok()
+                                    .flatten()
+                                })
+                            };
+                            if let Some(v) = run_alone(false) {
+                                verdict = Some(v);
+                            } else if let Some(mut v) = run_alone(true) {
+                                let mut c2 = case.clone();
+                                c2.prelude = prev.as_ref().map(|(pc, _, _, _)| Box::new(pc.clone()));
+                                v.case = serde_json::to_value(&c2).unwrap();
+                                verdict = Some(v);
+                            } else {
+                                *sum.probes.entry("violation_not_reproducible_in_isolation_skipped".into()).or_default() += 1;
+                                verdict = None;
+                            }
+                        }
+                        prev = Some((case.clone(), std::sync::Arc::clone(&comp), std::sync::Arc::clone(&clean), std::sync::Arc::clone(&cb)));
                         sum.note(n_case, ops ^ verdict.as_ref().map_or(0, |v| crate::rng::fnv(&v.class) ^ crate::rng::fnv(&v.site)));
                         if let Some(v) = verdict {
                             *sum.classes.entry(v.class.clone()).or_default() += 1;
@@ -280,13 +360,19 @@ pub fn run(ctx: &crate::RunCtx) -> (Summary, Vec<Violation>) {
 
 pub fn exec(case: &serde_json::Value) -> Result<Option<Violation>, String> {
     let case: Case = serde_json::from_value(case.clone()).map_err(|e| format!("bad C12 case: {e}"))?;
+    if let Some(p) = &case.prelude {
+        // the earlier failing write on this thread; its own verdict is not this case's
+        let mut p = (**p).clone();
+        p.prelude = None;
+        let _ = exec(&serde_json::to_value(&p).unwrap())?;
+    }
     let item = corpus::build_spec(case.corpus_idx, case.spec.clone());
     let comp = components(&item)
         .into_iter()
         .find(|(n, _)| *n == case.component)
         .ok_or_else(|| format!("component {} not found", case.component))?
         .1;
-    let (cb, nbits) = clean_bits(&comp);
+    let (cb, nbits) = on_fresh_thread(|| clean_bits(&comp));
     let clean = BitModel::from_bytes(&cb, nbits);
     let mut ops = 0;
     Ok(exec_case(&comp, &case, &clean, &cb, &mut ops))
@@ -297,25 +383,33 @@ pub fn minimise(case: &serde_json::Value, class: &str, site: &str) -> serde_json
     let Ok(c0) = serde_json::from_value::<Case>(case.clone()) else {
         return case.clone();
     };
+    if c0.prelude.is_some() {
+        // a two-write history is already small; shrinking it would need the pair to be re-searched
+        return case.clone();
+    }
     let item = corpus::build_spec(c0.corpus_idx, c0.spec.clone());
     let comps = components(&item);
     let mut best = c0.clone();
     let mut best_size = usize::MAX;
     for (name, comp) in &comps {
-        let (cb, nbits) = clean_bits(comp);
+        let (cb, nbits) = on_fresh_thread(|| clean_bits(comp));
         if nbits >= best_size {
             continue;
         }
         let clean = BitModel::from_bytes(&cb, nbits);
-        let n = count_ops(comp, c0.sink != "overridden");
+        let n = on_fresh_thread(|| count_ops(comp, c0.sink != "overridden"));
         for k in 0..n {
             let c = Case {
                 component: name.clone(),
                 k,
                 ..c0.clone()
             };
-            let mut ops = 0;
-            if let Some(v) = exec_case(comp, &c, &clean, &cb, &mut ops) {
+            // every trial on its own thread: a trial must not inherit what the previous one left behind
+            let verdict = on_fresh_thread(|| {
+                let mut ops = 0;
+                exec_case(comp, &c, &clean, &cb, &mut ops)
+            });
+            if let Some(v) = verdict {
                 if v.class == class && v.site == site {
                     best = c;
                     best_size = nbits;
